@@ -2,6 +2,9 @@ import PyElf.Driver.Json
 import PyElf.Spec.DwarfExpr
 import PyElf.Model.DwarfExpr
 import PyElf.Gen.Extra_C12
+import PyElf.Spec.DwarfExprInfo
+import PyElf.Model.DwarfExprInfo
+import PyElf.Driver.C04
 open Lean
 namespace PyElf.Driver.C12
 open PyElf PyElf.Spec
@@ -34,8 +37,70 @@ def kindStr : ArgKind → String
 
 def valsJson (r : R (List Val)) : Json := resJson (fun vs => Json.arr (vs.map Val.toJson).toArray) r
 
+def cfgOfJson (j : Json) : Except String DwarfCfg := do
+  match j with
+  | .arr #[Json.bool le, fmt, asz, ver] => return ⟨le, ← jNatOf fmt, ← jNatOf asz, ← jNatOf ver⟩
+  | _ => throw "bad cfg"
+
+def exprsJson (l : List (List (List (Nat × List Val)))) : Json :=
+  Json.arr (l.map fun u => Json.arr (u.map fun d => Json.arr (d.map fun (o, ops) =>
+    Json.arr #[jN o, Json.arr (ops.map Val.toJson).toArray]).toArray).toArray).toArray
+
+/-- `info`: expressions where they occur.  A forest request in C04's format (`abbrevs`, `units`, `tus`, `secs`) whose
+    block operands hold expression bytes, `exprs` = the (configuration, operations) the generator encoded (the `E` of
+    Props/C12 `debug_info_exprs_exact`, looked up by bytes: `Spec.C12.tableE`), `pc` = configurations whose parsers an
+    earlier walk left in the cache.  Sections are the Spec encodings, `wf` is `wfForestB ∧ forestExprsOK` with the
+    standard selection `isExprAttr`, `expect` is `expectInfoExprs` / `expectTypesExprs`, `model` is
+    `Model.C12.sectionExprs` over C04's model of the sections, `.debug_info` first, `.debug_types` from the cache the
+    first walk left. -/
+def handleInfo (req : Json) : Except String Json := do
+  let le ← jBool req "le"
+  let dasz := C04.jNatD req "dasz" 4
+  let tables ← (← jArr req "abbrevs").mapM fun t => do
+    let ds ← (← jArr t "decls").mapM C04.parseDecl
+    return ({ gap := (C04.jHexOpt t "gap").getD [], decls := ds, endLen := C04.jNatD t "end_len" 1 } : Spec.C04.TableDesc)
+  let secs := C04.parseSecs ((req.getObjVal? "secs").toOption.getD (Json.mkObj []))
+  let tbls := tables.map fun t => (t.decls, t.endLen)
+  let units ← (← jArr req "units").mapM (C04.parseUnitReq tbls)
+  let tus ← ((jArr req "tus").toOption.getD []).mapM (C04.parseUnitReq tbls)
+  let F := C04.forestOf le tables units tus secs
+  let tbl ← (← jArr req "exprs").mapM fun e => do
+    let c ← cfgOfJson (← e.getObjVal? "cfg")
+    let ops ← (← jArr e "ops").mapM opOf
+    return (c, ops)
+  let pc0 ← ((jArr req "pc").toOption.getD []).mapM fun j => do
+    let c ← cfgOfJson j
+    match Model.C12.tableGet Gen.opDispatch c with
+    | some D => return (c, D)
+    | none => throw "pc: no dispatch table for cfg"
+  let E := Spec.C12.tableE tbl
+  let sel := Spec.C12.isExprAttr
+  let info := Spec.C04.infoSec F
+  let abbr := Spec.C04.encTables F.tables
+  let types := Spec.C04.typesSec F
+  let wf := Spec.C04.wfForestB C04.names F && Spec.C12.forestExprsOK sel E C04.names F
+  let w := Model.C04.genDInfo le dasz (some info) (some abbr) (if tus.isEmpty then none else some types) secs
+  let some S0 := Model.dwarfStructsFor ⟨le, 32, dasz, 2⟩ | throw "no default bundle"
+  let N := Gen.opOpcode2Name
+  let r1 := Model.C12.sectionExprs Model.C04.fetch w S0 w.info false Gen.opDispatch N sel pc0
+  let pc1 := match r1 with | .ok (_, pc) => pc | .error _ => pc0
+  let r2 := Model.C12.sectionExprs Model.C04.fetch w S0 w.types true Gen.opDispatch N sel pc1
+  let rJ (r : R (List (List (List (Nat × List Val))) × Model.C12.PCache)) : Json := resJson (fun x => exprsJson x.1) r
+  let nsel := (Spec.C12.expectInfoExprs sel E C04.names F ++ Spec.C12.expectTypesExprs sel E C04.names F).foldl
+    (fun n u => u.foldl (fun n d => n + d.length) n) 0
+  return Json.mkObj [("info", jHexOf info), ("abbrev", jHexOf abbr), ("types", jHexOf types), ("wf", Json.bool wf),
+    ("wf_forest", Json.bool (Spec.C04.wfForestB C04.names F)), ("selected", jN nsel),
+    ("expect", Json.mkObj [("info", Json.mkObj [("ok", exprsJson (Spec.C12.expectInfoExprs sel E C04.names F))]),
+                           ("types", Json.mkObj [("ok", exprsJson (Spec.C12.expectTypesExprs sel E C04.names F))])]),
+    ("model", Json.mkObj [("info", rJ r1), ("types", rJ r2)])]
+
 def handle (req : Json) : Except String Json := do
   let k ← jStr req "k"
+  if k == "info" then return ← handleInfo req
+  if k == "exprclass" then
+    -- the standard's selection of expression attributes (drives the harness generator and its client loop)
+    return Json.mkObj [("at", Json.arr (Spec.C12.exprClassAt.map fun (n, s) => Json.arr #[jN n, Json.str s]).toArray),
+                       ("block_forms", Json.arr (Spec.C12.blockFormNames.map Json.str).toArray)]
   let cfg ← cfgOf req
   let some (_, D) := Gen.opDispatch.find? (·.1 == cfg) | throw "no dispatch table for cfg"
   let N := Gen.opOpcode2Name
@@ -46,6 +111,22 @@ def handle (req : Json) : Except String Json := do
     return Json.mkObj [("bytes", jHexOf bytes), ("wf", Json.bool (WFops cfg ops)),
                        ("expect", Json.arr ((annotate cfg 0 ops).map Val.toJson).toArray),
                        ("model", valsJson (Model.parseExpr D N bytes))]
+  | "trunc" =>
+    -- every proper prefix of an encoded sequence: `expect` is what Props/C12 `truncated_expr` prescribes (the
+    -- operations before a cut that falls between two operations, ELFParseError for a cut inside one), `model` the
+    -- model run on the prefix
+    let ops ← (← jArr req "ops").mapM opOf
+    let bytes := encodeOps cfg ops
+    let full := annotate cfg 0 ops
+    let bounds := (ops.foldl (fun (acc : List Nat × Nat) o =>
+      let n := acc.2 + (encodeOp cfg o).length
+      (acc.1 ++ [n], n)) ([0], 0)).1
+    let cuts := (List.range bytes.length).map fun k =>
+      let e : R (List Val) := match bounds.idxOf? k with
+        | some i => .ok (full.take i)
+        | none => .error .elfParseError
+      Json.mkObj [("expect", valsJson e), ("model", valsJson (Model.parseExpr D N (bytes.take k)))]
+    return Json.mkObj [("bytes", jHexOf bytes), ("wf", Json.bool (WFops cfg ops)), ("cuts", Json.arr cuts.toArray)]
   | "raw" =>
     let data ← jHex req "hex"
     -- `spec := true`: the model dispatched by the standard's signature and name tables
